@@ -20,6 +20,7 @@ Not a theorem (tie only): the Job rows of an extended execution hang under the c
 import RedunModel.Lemmas.EvalCore
 import RedunModel.Model.EvalLib
 import RedunModel.Model.CacheLookup
+import RedunModel.Model.SubrunModules
 namespace RedunModel.C38
 open RedunModel.EvalCore
 
@@ -183,6 +184,64 @@ theorem no_cache_run_restarts_subrun (scope : Scope) (cv : CheckValid) (f : Fact
     checkCache (runScope false scope) cv subrunAllowed f = (.miss, none) := by
   unfold runScope checkCache subrunAllowed
   simp [hc]
+
+/-! ### what `subrun` ships to the sub-scheduler -/
+section modules
+open RedunModel.SubrunModules
+
+theorem mem_loadModules (reg : List Mod) (m : Mod) : m ∈ loadModules reg ↔ m ∈ reg ∧ own m = false := by
+  induction reg with
+  | nil => simp [loadModules]
+  | cons x xs ih =>
+    unfold loadModules
+    by_cases hx : own x = true
+    · simp only [hx, Bool.true_or, if_true, ih]
+      constructor
+      · rintro ⟨h1, h2⟩; exact ⟨List.mem_cons_of_mem _ h1, h2⟩
+      · rintro ⟨h1, h2⟩
+        rcases List.mem_cons.mp h1 with rfl | h1
+        · rw [hx] at h2; cases h2
+        · exact ⟨h1, h2⟩
+    · have hx' : own x = false := by simpa using hx
+      by_cases hc : (loadModules xs).contains x = true
+      · simp only [hx', Bool.false_or, hc, if_true, ih]
+        constructor
+        · rintro ⟨h1, h2⟩; exact ⟨List.mem_cons_of_mem _ h1, h2⟩
+        · rintro ⟨h1, h2⟩
+          rcases List.mem_cons.mp h1 with rfl | h1
+          · have := (ih).mp (by simpa using hc)
+            exact this
+          · exact ⟨h1, h2⟩
+      · simp only [hx', Bool.false_or, hc]
+        simp only [Bool.false_eq_true, if_false, List.mem_cons, ih]
+        constructor
+        · rintro (rfl | ⟨h1, h2⟩)
+          · exact ⟨Or.inl rfl, hx'⟩
+          · exact ⟨Or.inr h1, h2⟩
+        · rintro ⟨h1 | h1, h2⟩
+          · exact Or.inl h1
+          · exact Or.inr ⟨h1, h2⟩
+
+/-- a user module is never taken for one of redun's own -/
+theorem user_not_own (m : Mod) (h : user m = true) : own m = false := by
+  unfold user at h
+  unfold own
+  split <;> simp_all
+
+/-- Every module that defines a registered user task — whatever it is called: `redunflows`, `redun_workflows`, `redun`
+itself, a nested package, `__main__` — is shipped to the sub-scheduler, so a sub-scheduler started in a fresh interpreter
+can find every task the expression needs. -/
+theorem load_modules_cover_tasks (reg : List Mod) (m : Mod) (hm : m ∈ reg) (hu : user m = true) : m ∈ loadModules reg :=
+  (mem_loadModules reg m).mpr ⟨hm, user_not_own m hu⟩
+
+/-- ... and nothing but registered modules outside redun proper (or its test modules) is shipped -/
+theorem load_modules_only_registered (reg : List Mod) (m : Mod) (h : m ∈ loadModules reg) : m ∈ reg ∧ own m = false :=
+  (mem_loadModules reg m).mp h
+
+example : loadModules [["redun", "scheduler"], ["redunflows_1"], ["redun"], ["redun", "tests", "x"], ["redun", "tests"],
+    ["pkg", "wf"], ["redunflows_1"]] = [["redun"], ["redun", "tests", "x"], ["pkg", "wf"], ["redunflows_1"]] := by decide
+
+end modules
 
 /-! Non-vacuity. -/
 open RedunModel.EvalLib
